@@ -98,13 +98,21 @@ def layout_only(A, rec, params, seed, swap=False, lo=1, hi=100):
     return mc.safe(lambda: A.layout.compute(rec, params))
 
 
+INEXACT = [0]   # coordinates met that are no multiple of 1/SCALE (only changed code produces them)
+TOL = 8         # tolerance, in units of 1/SCALE, with which such layouts are judged
+
+
 def scaled(x):
+    """Coordinate as an integer number of 1/SCALE.  The pinned code only adds,
+    subtracts and halves integers and half-integers, so its coordinates are
+    exact; a changed tree may produce others (a division by three): they are
+    rounded, counted in INEXACT, and the layout is judged with tolerance TOL."""
     v = x * SCALE
     if not math.isfinite(v):
         return None
     r = round(v)
     if abs(v - r) > 1e-6:
-        raise mc.MachineryError(f"coordinate {x} is not a multiple of 1/{SCALE}")
+        INEXACT[0] += 1
     return int(r)
 
 
@@ -130,6 +138,7 @@ def project_layout(A, lay, onodes, snodes):
 
     species = []
     finite = True
+    inexact_before = INEXACT[0]
     for snode in snodes:
         sub = lay[snode]
         branches = []
@@ -154,7 +163,7 @@ def project_layout(A, lay, onodes, snodes):
                         "fork": scaled(sub.fork_thickness),
                         "anchors": sorted([gid(g), scaled(p.x), scaled(p.y)] for g, p in sub.anchors.items()),
                         "branches": branches})
-    return {"species": species, "finite": finite}
+    return {"species": species, "finite": finite, "tol": TOL if INEXACT[0] != inexact_before else 0}
 
 
 _NODE = re.compile(r"\\node\[(extant gene|speciation|duplication|horizontal gene transfer|loss)=\{(\w+)\}"
